@@ -179,6 +179,16 @@ class _Expand(ast.NodeTransformer):
 
     def visit_Call(self, node):
         self.generic_visit(node)
+        f = node.func
+        if isinstance(f, ast.Attribute) and f.attr == "get" and isinstance(f.value, ast.Dict) and 1 <= len(node.args) <= 2 \
+                and not node.keywords and f.value.keys and all(isinstance(k, ast.Constant) for k in f.value.keys) \
+                and all(isinstance(v, (ast.Name, ast.Attribute, ast.Constant)) for v in f.value.values) \
+                and len({repr(k.value) for k in f.value.keys}) == len(f.value.keys):
+            # a lookup in a literal table is a case distinction on the key: {k1: v1, ...}.get(x, d) = v1 if x == k1 else ... else d
+            out = node.args[1] if len(node.args) == 2 else ast.Constant(value=None)
+            for k, v in reversed(list(zip(f.value.keys, f.value.values))):
+                out = ast.IfExp(test=ast.Compare(left=clone(node.args[0]), ops=[ast.Eq()], comparators=[k]), body=v, orelse=out)
+            return ast.fix_missing_locations(ast.copy_location(out, node))
         if any(k.arg is None and isinstance(k.value, ast.Dict) and all(
                 x is not None and isinstance(x, ast.Constant) and isinstance(x.value, str) for x in k.value.keys) for k in node.keywords):
             kws = []
@@ -264,6 +274,18 @@ class Summariser:
                 if not ok:
                     other.add(n.id)
         self.kwdicts = splat - other
+        # module-level names that denote a class, a function or an imported object (never None), unless the function rebinds them
+        local = {n.id for n in ast.walk(fn) if isinstance(n, ast.Name) and isinstance(n.ctx, (ast.Store, ast.Del))} | \
+            {a.arg for a in ast.walk(fn.args) if isinstance(a, ast.arg)}
+        objs, assigned = set(), set()
+        for st in getattr(mod, "tree", ast.Module(body=[], type_ignores=[])).body:
+            if isinstance(st, (ast.ClassDef, ast.FunctionDef, ast.AsyncFunctionDef)):
+                objs.add(st.name)
+            elif isinstance(st, (ast.Import, ast.ImportFrom)):
+                objs |= {(a.asname or a.name).split(".")[0] for a in st.names}
+            else:
+                assigned |= {n.id for n in ast.walk(st) if isinstance(n, ast.Name) and isinstance(n.ctx, (ast.Store, ast.Del))}
+        self.module_objects = objs - assigned - local
 
     # names only ever bound to list displays / list comprehensions / list(...) in this function
     def _list_vars(self):
@@ -455,8 +477,8 @@ class Summariser:
             return
         f = self.fold(e)
         if f is None and isinstance(e, ast.Compare) and len(e.ops) == 1 and isinstance(e.ops[0], (ast.Is, ast.IsNot)) \
-                and isinstance(e.left, ast.Name) and e.left.id in p.notnone and isinstance(e.comparators[0], ast.Constant) \
-                and e.comparators[0].value is None:
+                and isinstance(e.left, ast.Name) and (e.left.id in p.notnone or (e.left.id in self.module_objects and e.left.id not in p.env)) \
+                and isinstance(e.comparators[0], ast.Constant) and e.comparators[0].value is None:
             f = isinstance(e.ops[0], ast.IsNot)
         if f is not None:
             yield p, f
